@@ -1213,7 +1213,8 @@ SyntaxVisitor::Action TypeChecker::visitPrefixUnaryExpression(
                 diagReporter_.ExpectedExpressionOfScalarType(node->operatorToken());
                 return typeCheckError(node);
             }
-            ty = ty_;
+            // The result has type int (6.5.3.3-5).
+            ty = semaModel_->compilation()->canonicalBasicType(BasicTypeKind::Int_S);
             break;
         }
         case SyntaxKind::AmpersandAmpersandToken:
@@ -1702,7 +1703,18 @@ SyntaxVisitor::Action TypeChecker::visitBinaryExpression_Logical(
         const Type* leftTy,
         const Type* rightTy)
 {
-    return Action::Skip;
+    // Each of the operands shall have scalar type; the result has type
+    // int (6.5.13 and 6.5.14).
+    if (!isScalarType(leftTy)) {
+        diagReporter_.ExpectedExpressionOfScalarType(node->left()->lastToken());
+        return typeCheckError(node);
+    }
+    if (!isScalarType(rightTy)) {
+        diagReporter_.ExpectedExpressionOfScalarType(node->right()->lastToken());
+        return typeCheckError(node);
+    }
+    auto ty = semaModel_->compilation()->canonicalBasicType(BasicTypeKind::Int_S);
+    return typeChecked(node, ty);
 }
 
 SyntaxVisitor::Action TypeChecker::visitConditionalExpression(const ConditionalExpressionSyntax* node)
